@@ -155,8 +155,10 @@ def parseKeyValueLine (uc : UC) (line : Bytes) : Option (Bytes × Bytes) :=
 
 /-! ### parseBenchmarkLine -/
 
-def benchmarkPrefix : Bytes := str "Benchmark"
-def unitPrefix : Bytes := str "Unit"
+/-- `"Benchmark"` -/
+def benchmarkPrefix : Bytes := [66, 101, 110, 99, 104, 109, 97, 114, 107]
+/-- `"Unit"` -/
+def unitPrefix : Bytes := [85, 110, 105, 116]
 
 inductive BenchOut where
   /-- `errSkip`: the name is the entire line (`go test -v` chatter) -/
